@@ -23,7 +23,9 @@ Strings == IF Thorough THEN StringsUpTo(Full, 3)
 SwapCase(c) == IF c >= 97 /\ c <= 122 THEN c - 32 ELSE IF c >= 65 /\ c <= 90 THEN c + 32
                ELSE IF c = 233 THEN 201 ELSE c
 HaysOf(s) == { s, <<122>> \o s \o <<122>>, s \o s, (IF s = <<>> THEN <<>> ELSE Tail(s)) \o s, <<>>,
-               [k \in DOMAIN s |-> SwapCase(s[k])] \o <<122>> \o s, <<122, 233>> }
+               [k \in DOMAIN s |-> SwapCase(s[k])] \o <<122>> \o s, <<122, 233>>,
+               \* U+0000 where s has a non-ASCII character: nothing but s's own characters may match there
+               [k \in DOMAIN s |-> IF s[k] > 127 THEN 0 ELSE s[k]] }
 
 CaseSeq == SetToSeq({[fam |-> "escape", s |-> s, hays |-> SetToSeq(HaysOf(s))] : s \in Strings})
 
